@@ -6,6 +6,9 @@ from contracts import ioclient_c as I
 def main(tier):
     run = PropertyRun('C14', tier, level='other')
     run.add(I.UpdateStateTask('C14'), I.CloseTask('C14'), I.ConnectTask('C14'), I.ReceiveLoopTask('C14'))
+    # "after close() returns no receive callback runs": close() cancels the consumer task, and the consumer awaits the
+    # callback itself, so the cancellation reaches a callback in progress (contract of _process_queue, also part of C12)
+    run.add(I.ProcessQueueTask('C14'))
     for cls in ('EByteNmea2000Gateway', 'ActisenseNmea2000Gateway'):
         t = I.SendTask('C14', cls)
         t.only_g1 = True          # for send() only the closed-is-final guarantee belongs to this property (the rest is C19)
